@@ -5,19 +5,19 @@ from . import c14
 
 CLAIM = True
 LEVEL_TEXT = ("Theorems (Lean 4) about the statement-by-statement model of add_source/add_comp/change_comp/del_comp/"
-              "set_sys_phases/set_comp_phases: from every well-formed state, a call that raises leaves the model state literally "
-              "unchanged (graph, index allocator, all six registries) and raises ValueError; hence a history with a rejected call "
-              "runs exactly like the history without it. PARTIAL: proved under the decidable hypothesis `Safe15 s op` that excludes "
-              "del_comp(<rail name>) (finding F20: the node and its subtree are removed, then `del attrs['nodes'][name]` raises "
-              "KeyError); the full statement is refuted on that witness in Lean and on the implementation on every run. Tie to the "
-              "code: random histories with ~60% rejected calls; for every call that raises, params(limits=True), phases(), tree(), "
-              "the save() document and the solve() table (or their exception classes) are compared before/after.")
-LEVEL_NOTE = ("reject_noop / reject_then_continue / error_class are `_partial` (hypotheses: well-formed pre-state, Safe15); "
-              "add_comp(parent=[]) raises IndexError instead of ValueError (finding F34, state unchanged); correspondence is testing.")
+              "set_sys_phases/set_comp_phases: from every well-formed state (hence from every reachable state, by C14) a call that "
+              "raises leaves the model state literally unchanged (graph, index allocator, all six registries) and raises "
+              "ValueError; hence a history with a rejected call runs exactly like the history without it. Full strength: no "
+              "hypothesis on the call (del_comp(<rail name>), which used to delete the rail's owner and then raise KeyError - "
+              "finding F20 found by this check - and add_comp([]) -> IndexError, F34, are fixed in /repo and kept as regressions). "
+              "Tie to the code: random histories with ~60% rejected calls; for every call that raises, params(limits=True), "
+              "phases(), tree(), the save() document and the solve() table (or their exception classes) are compared before/after.")
+LEVEL_NOTE = ("proved for all calls from well-formed (= all reachable) states; the tie between model and system.py is testing "
+              "(correspondence after every call + before/after comparison of all public reports), not proof.")
 MODULE = "SysLoss.Props.C15"
 THEOREMS = [
-    "SysLoss.C15.reject_noop_partial", "SysLoss.C15.error_class_partial", "SysLoss.C15.reject_then_continue_partial",
-    "SysLoss.C15.reject_noop_full_fails", "SysLoss.C15.error_class_full_fails", "SysLoss.C15.safe15_nonvacuous",
+    "SysLoss.C15.reject_noop", "SysLoss.C15.error_class", "SysLoss.C15.reject_noop_reachable",
+    "SysLoss.C15.reject_then_continue", "SysLoss.C15.reject_nonvacuous", "SysLoss.C15.regression_F20",
 ]
 RULE = ("random histories of 5-60 calls (all six editing / configuration methods) over 12 names and 6 rail names, ~60% crafted "
         "rejections of every cause in the property's list; for EVERY call that raises: full observable state before == after and the "
@@ -28,7 +28,7 @@ ASSUMPTIONS = c14.ASSUMPTIONS + ["'before == after' compares params(limits=True)
                                  "solve() table (or the exception class each raises), produced by the same process, cell by cell"]
 EXPLANATION = ("theorems: SysLoss.Props.C15; correspondence: Lean `hist` run vs the real System after every call (outcome class, "
                "structure, registries); oracle: before/after equality of all public reports around every raising call, error class, "
-               "and replay without the rejected calls")
+               "and replay without the rejected calls; corpus/C15: the minimal histories of the fixed findings F20, F34")
 
 FULL_KEYS = ("comps", "params", "links", "doc", "save_exc", "phases_rep", "solve", "params_exc", "tree_exc")
 
@@ -185,11 +185,22 @@ def run_witnesses(ctx):
                 ctx.notes.append("witness of %s no longer fails" % k["id"])
 
 
+def run_corpus(ctx):
+    import glob, os
+    from ..check import VERIF
+    for f in sorted(glob.glob(os.path.join(VERIF, "corpus", ctx.prop, "*.json"))):
+        h = json.load(open(f))["case"]["history"]
+        r = H.replay(h, full=True)
+        ctx.stats["corpus_runs"] += 1
+        check_history(ctx, r, "corpus:" + os.path.basename(f))
+
+
 def run(ctx):
+    run_corpus(ctx)
     run_witnesses(ctx)
-    cfg = G.Cfg(p_reject=0.6, p_unsafe=0.02, w_phase=0.25, phase_reject=True)
+    cfg = G.Cfg(p_reject=0.6, p_unsafe=1.0, w_phase=0.25, phase_reject=True)
     causes = {}
-    for _ in range(ctx.n(42, 1700)):
+    for _ in range(ctx.n(90, 1700)):
         r = gen_history(ctx, cfg, causes)
         check_history(ctx, r, "main")
     calls = sum(v for k, v in ctx.stats.items() if k.startswith("main:call:"))
